@@ -52,6 +52,41 @@ func checkAuthBits(c *km.Ctx, s *km.Sem, checkAuth *ssa.Function, rule string) {
 		}
 	}
 	roots := map[*ssa.Function]bool{checkAuth: true}
+	// "the IP-certificate verifier accepted": every error it reports is nil - its error results, or, when it hands
+	// back one struct, the error-typed fields of that struct (tested directly or inside a method of the struct)
+	var ipAccepted []km.Prim
+	if ipFn := c.P.Func("cmd/keymasterd", "(*RuntimeState).getUsernameIfIPRestricted"); ipFn != nil {
+		res := ipFn.Signature.Results()
+		if st := structOf(res.At(0).Type()); res.Len() == 1 && st != nil {
+			for i := 0; i < st.NumFields(); i++ {
+				if !isErrorType(st.Field(i).Type()) {
+					continue
+				}
+				fld := km.RecordedField(res.At(0).Type(), st.Field(i).Name())
+				ipAccepted = append(ipAccepted, km.Prim{Name: ipRestr + " result." + fld + " == nil", Rel: func(f km.Fact, resolve func(ssa.Value) ssa.Value) bool {
+					if f.Op != token.EQL || !km.IsNilConst(f.Y) {
+						return false
+					}
+					base, fl, ok := km.FieldOfLoad(km.Unwrap(f.X))
+					if !ok || fl != fld {
+						return false
+					}
+					cl, _ := callRes(km.CellOrigin(resolve(base)))
+					return cl != nil && km.CalleeFull(cl.Common()) == ipRestr
+				}})
+			}
+		} else {
+			for i := 0; i < res.Len(); i++ {
+				if isErrorType(res.At(i).Type()) {
+					ipAccepted = append(ipAccepted, errNilOf(ipRestr, i))
+				}
+			}
+		}
+	}
+	if len(ipAccepted) == 0 {
+		c.R.AnchorLost(rule, "error results of getUsernameIfIPRestricted")
+		return
+	}
 	// the required-mask value: checkAuth's parameter, or a helper parameter every family caller binds to it
 	var isReq func(v ssa.Value, depth int) bool
 	isReq = func(v ssa.Value, depth int) bool {
@@ -274,7 +309,7 @@ func checkAuthBits(c *km.Ctx, s *km.Sem, checkAuth *ssa.Function, rule string) {
 				}
 				if bits&bitIP != 0 {
 					nBits++
-					need(in, "grant AuthTypeIPCertificate", errNilOf(ipRestr, 2), errNilOf(ipRestr, 3), tlsPresent, chainsPresent, maskTest(bitIP, true))
+					need(in, "grant AuthTypeIPCertificate", append(append([]km.Prim{}, ipAccepted...), tlsPresent, chainsPresent, maskTest(bitIP, true))...)
 				}
 				if bits&bitPassword != 0 {
 					nBits++
@@ -292,6 +327,14 @@ func checkAuthBits(c *km.Ctx, s *km.Sem, checkAuth *ssa.Function, rule string) {
 				for _, k := range c.F.At(in) {
 					for _, lf := range s.Leaves(k, ffn, nil, st.Val, stopAt, 3) {
 						cl, idx := callRes(lf.Val)
+						if cl == nil {
+							// a field of the struct a verifier handed back
+							if base, _, isF := km.FieldOfLoad(km.Unwrap(lf.Val)); isF {
+								if c2, _ := callRes(km.CellOrigin(base)); c2 != nil && km.CalleeFull(c2.Common()) == ipRestr && fieldCarriesUserName(c2, lf.Val) {
+									cl, idx = c2, 0
+								}
+							}
+						}
 						switch {
 						case cl != nil && km.CalleeFull(cl.Common()) == kmSigned && idx == 0:
 							kinds["keymaster certificate"] = true
@@ -327,7 +370,7 @@ func checkAuthBits(c *km.Ctx, s *km.Sem, checkAuth *ssa.Function, rule string) {
 				case kinds["keymaster certificate"] && len(kinds) == 1:
 					need(in, "set Username from keymaster certificate", errNilOf(kmSigned, 2), nonEmptyResult(kmSigned, 0))
 				case kinds["IP certificate"] && len(kinds) == 1:
-					need(in, "set Username from IP certificate", errNilOf(ipRestr, 2), errNilOf(ipRestr, 3))
+					need(in, "set Username from IP certificate", ipAccepted...)
 				case kinds["basic-auth"] && len(kinds) == 1:
 					need(in, "set Username from basic-auth", limiter, passwordOK)
 					c.R.Add(rule, km.FuncName(ffn), "basic-auth user is the one whose password was checked", posOf(c, in), "checkUserPassword(user,…) and authInfo.Username use the same normalised value", sprintf("%v", problems), okAll)
@@ -475,17 +518,48 @@ func checkIPRestrictedHelper(c *km.Ctx, s *km.Sem, rule string) {
 	}
 	verify := certgenPkg + ".VerifyIPRestrictedX509CertIP"
 	n := 0
+	// the call may sit in a small helper of the IP-certificate function: the helper's parameters are then the
+	// arguments the IP-certificate function passes
+	type site struct {
+		ci      ssa.CallInstruction
+		in      *ssa.Function
+		through ssa.CallInstruction // the call in fn that leads to `in` (nil when in == fn)
+	}
+	var sites []site
 	for _, ci := range km.CallsIn(fn) {
-		if km.CalleeFull(ci.Common()) != verify {
+		if km.CalleeFull(ci.Common()) == verify {
+			sites = append(sites, site{ci, fn, nil})
 			continue
 		}
+		if g := km.StaticCallee(ci.Common()); g != nil && g.Blocks != nil && c.InModule(g) && g != fn {
+			for _, c2 := range km.CallsIn(g) {
+				if km.CalleeFull(c2.Common()) == verify {
+					sites = append(sites, site{c2, g, ci})
+				}
+			}
+		}
+	}
+	for _, st := range sites {
+		ci := st.ci
 		n++
-		addr := km.Unwrap(ci.Common().Args[1])
+		inFn := func(v ssa.Value) ssa.Value {
+			v = km.Unwrap(v)
+			if p, isP := v.(*ssa.Parameter); isP && st.through != nil {
+				args := km.CallArgs(st.through.Common())
+				for i, q := range st.in.Params {
+					if q == p && i < len(args) {
+						return km.Unwrap(args[i])
+					}
+				}
+			}
+			return v
+		}
+		addr := inFn(ci.Common().Args[1])
 		x, path, ok := km.FieldPath(addr)
 		good := ok && path == "RemoteAddr" && km.NamedTypeOf(x.Type()) == "net/http.Request"
 		c.R.Add(rule, km.FuncName(fn), "peer address given to VerifyIPRestrictedX509CertIP", posOf(c, ci), "the address checked against the netblocks is the TCP peer address r.RemoteAddr (never a client-supplied header)", km.ValStr(addr), good)
 		// the certificate is the verified leaf
-		cert := km.Unwrap(ci.Common().Args[0])
+		cert := inFn(ci.Common().Args[0])
 		okCert := isVerifiedLeaf(cert)
 		c.R.Add(rule, km.FuncName(fn), "certificate given to VerifyIPRestrictedX509CertIP", posOf(c, ci), "the certificate checked is VerifiedChains[0][0]", km.ValStr(cert), okCert)
 	}
@@ -503,10 +577,36 @@ func checkIPRestrictedHelper(c *km.Ctx, s *km.Sem, rule string) {
 		return f.Op == token.ILLEGAL && f.Pol && cl != nil && idx == 0 && km.CalleeFull(cl.Common()) == RS+"isAutomationUser"
 	}}
 	autoErrNil := primErrNil("isAutomationUser err==nil", RS+"isAutomationUser", 1)
+	nAcc := 0
 	for _, rc := range s.RetCases(fn) {
-		if len(rc.Results) != 4 || !km.IsNilConst(rc.Results[2]) || !km.IsNilConst(rc.Results[3]) {
+		// an accepting return reports no error: nil in every error result, or - for a result struct - no error
+		// stored into any of its error fields
+		accepting := true
+		if len(rc.Results) == 1 {
+			sy := km.SymOf(rc.Results[0])
+			if sy == nil || sy.Op != "struct" {
+				c.R.Add(rule, km.FuncName(fn), "result of the IP-certificate helper", posOf(c, rc.Ret), "a struct literal (or the classic result tuple)", km.ValStr(rc.Results[0]), false)
+				continue
+			}
+			st := structOf(rc.Results[0].Type())
+			for i := 0; st != nil && i < st.NumFields(); i++ {
+				if isErrorType(st.Field(i).Type()) {
+					if f, has := sy.Fields[st.Field(i).Name()]; has && !(f.Op == "const" && km.IsNilConst(f.Val)) {
+						accepting = false
+					}
+				}
+			}
+		} else {
+			for i, v := range rc.Results {
+				if isErrorType(fn.Signature.Results().At(i).Type()) && !km.IsNilConst(v) {
+					accepting = false
+				}
+			}
+		}
+		if !accepting {
 			continue
 		}
+		nAcc++
 		var missing []string
 		for _, p := range []km.Prim{validIP, verifyErrNil, autoOK, autoErrNil} {
 			if !rc.State.All(func(k km.Conj) bool { return s.Holds(k, p) }) {
@@ -514,6 +614,9 @@ func checkIPRestrictedHelper(c *km.Ctx, s *km.Sem, rule string) {
 			}
 		}
 		c.R.Add(rule, km.FuncName(fn), "success return of the IP-certificate helper", posOf(c, rc.Ret), "peer inside the certificate's netblocks ∧ no decode error ∧ name is an automation identity", sprintf("missing=%v", missing), len(missing) == 0)
+	}
+	if nAcc == 0 {
+		c.R.AnchorLost(rule, "accepting return of getUsernameIfIPRestricted")
 	}
 }
 
@@ -547,4 +650,39 @@ func isVerifiedLeaf(v ssa.Value) bool {
 	default:
 		return mentionsField(ia2.X, "VerifiedChains")
 	}
+}
+
+// fieldCarriesUserName: v reads a string field of the struct call returns, and every return of the callee that
+// stores that field stores the certificate's subject common name (the verified client name) or nothing.
+func fieldCarriesUserName(call *ssa.Call, v ssa.Value) bool {
+	_, fld, ok := km.FieldOfLoad(km.Unwrap(v))
+	g := km.StaticCallee(call.Common())
+	if !ok || g == nil || g.Blocks == nil {
+		return false
+	}
+	n := 0
+	for _, b := range g.Blocks {
+		ret, isRet := b.Instrs[len(b.Instrs)-1].(*ssa.Return)
+		if !isRet {
+			continue
+		}
+		sy := km.SymOf(km.ReturnValues(ret)[0])
+		if sy == nil || sy.Op != "struct" {
+			return false
+		}
+		f, has := sy.Fields[fld]
+		if !has {
+			continue
+		}
+		if f.Op == "field" && f.Name == "CommonName" {
+			n++
+			continue
+		}
+		if f.Op == "val" && mentionsField(f.Val, "CommonName") {
+			n++
+			continue
+		}
+		return false
+	}
+	return n > 0
 }
